@@ -5,4 +5,5 @@ INVARIANT ArithChar
 INVARIANT RippleAgree
 INVARIANT RippleLemma
 INVARIANT UnaryLaws
+INVARIANT DeviationsAreViolations
 CHECK_DEADLOCK FALSE
